@@ -20,6 +20,7 @@ dvars == <<acl, grp, bind, route, mode, err>>
 Latch(g) == IF err = "" THEN g ELSE err
 
 GrpRefs(ace) == {t.v : t \in {x \in {ace.src, ace.dst} : x.k = "grp"}}
+                \cup (IF ace.svc \in SvcGroupNames THEN {ace.svc} ELSE {})
 AclRefsGrp(n, g) == \E i \in DOMAIN acl[n] : g \in GrpRefs(acl[n][i])
 GrpReferenced(g) == \E n \in DOMAIN acl : AclRefsGrp(n, g)
 AclReferenced(n) == \E b \in bind : b.acl = n
